@@ -317,6 +317,20 @@ def h_pus(ctx, which, n0, n1):
         o.tm_data = ctx.octets("mid", 3)
         o.tm_data = d1
         unpack = lambda r: PusTm.unpack(r, 2)  # noqa: E731
+    # the data handed over in the caller's own mutable buffer: views and packs in any order neither grow it nor the packet
+    buf = ctx.bytes_of(list(items_of(d1)), mutable=True)
+    if which == "tc":
+        o3 = PusTc(*args, d0, sc)
+        o3.app_data = buf
+    else:
+        o3 = PusTm(*args, d0, apid, sc)
+        o3.tm_data = buf
+    v1 = o3.to_space_packet().pack()
+    v2 = o3.to_space_packet().pack()
+    r3 = o3.pack()
+    ctx.holds("data assigned as a bytearray: space packet view twice, then pack: same octets as a fresh object, length == packed",
+              sym_and(v1 == fresh.pack(), v2 == fresh.pack(), r3 == fresh.pack(), o3.packet_len == len(r3), o3 == fresh))
+    ctx.holds("the caller's buffer is left as it was", sym_and(len(buf) == n1, buf == d1))
     if which == "tm":
         # the same setter on an object that came out of the decoder / the composite constructor
         for name, o2 in (("decoded", PusTm.unpack(PusTm(*args, d0, apid, sc).pack(), 2)),
